@@ -59,6 +59,16 @@ def Req.noStatus2 : Req → Prop
 /-- no `compile` request of the history ended with status 2 -/
 def NoStatus2 (h : List Req) : Prop := ∀ q ∈ h, q.noStatus2
 
+/-- The second hypothesis that is left: every `compile` request could at least be read by
+    the worker.  Otherwise `worker_proc.worker` answers status 1 with the ordinary
+    exception of `pickle.loads(req)` / `get_handler` — before `__sync__` ran — and
+    `BaseWorker.call` acknowledges a sync that never happened. -/
+def Req.noLostRequest : Req → Prop
+  | .compile r => r.out ≠ .requestUnreadable
+  | .tx _ => True
+
+def NoLostRequest (h : List Req) : Prop := ∀ q ∈ h, q.noLostRequest
+
 /-! ### "identities never come back"
 
 Ghost bookkeeping over a history: per slot the identity supplied last
@@ -147,7 +157,7 @@ def Parts.viaMemo (memo : Tok → Tok) (p : Parts) : Parts :=
 
 /-- `stepCompile` with an explicit memo: the worker receives `viaMemo`, the callback
     records the objects themselves (`to_update` holds the objects, not the bytes) -/
-def stepCompileMemo (memo : Tok → Tok) (env : Env) (st : State) (r : CReq) : State × CObs :=
+def stepCompileRunMemo (memo : Tok → Tok) (env : Env) (st : State) (r : CReq) : State × CObs :=
   let ws := st r.w
   let p := preargs ws.bel r
   let cb := !p.isEmpty
@@ -159,7 +169,7 @@ def stepCompileMemo (memo : Tok → Tok) (env : Env) (st : State) (r : CReq) : S
     let aLast : Option Tok := match r.out with
       | .ok | .resultUnpicklable => some r.ns
       | .okNoState => none
-      | .raise | .statePickleFail => a'.last
+      | .raise | .statePickleFail | .requestUnreadable => a'.last
     let a'' := { a' with last := aLast }
     match r.out with
     | .resultUnpicklable =>
@@ -173,5 +183,8 @@ def stepCompileMemo (memo : Tok → Tok) (env : Env) (st : State) (r : CReq) : S
         | .okNoState => (upd st r.w ⟨{ b' with last := none }, a''⟩, ⟨p, cb, .ok, some used⟩)
         | .raise => (upd st r.w ⟨b'.forget, a''⟩, ⟨p, cb, .compErr, some used⟩)
         | _ => (upd st r.w ⟨b'.forget, a''⟩, ⟨p, cb, .statePickleErr, some used⟩)
+
+def stepCompileMemo (memo : Tok → Tok) (env : Env) (st : State) (r : CReq) : State × CObs :=
+  if r.out = .requestUnreadable then stepCompileLost st r else stepCompileRunMemo memo env st r
 
 end EdbVerif.Sync
